@@ -297,7 +297,7 @@ func parseXLogRecord(data []byte, lsn uint64, magic uint16) (*WALRecord, int) {
 	}
 
 	rec.RMName = rmgrName(rec.ResourceMgr)
-	rec.Operation = operationName(rec.ResourceMgr, rec.Info)
+	rec.Operation = operationNameFor(rec.ResourceMgr, rec.Info, magic)
 
 	// Parse block references if present
 	if int(totalLen) > XLogRecordSize && int(totalLen) <= len(data) {
@@ -447,6 +447,12 @@ func rmgrName(rmid uint8) string {
 }
 
 func operationName(rmid, info uint8) string {
+	return operationNameFor(rmid, info, WAL_MAGIC_16)
+}
+
+// operationNameFor names the operation of a record found on a page with the given magic: the opcodes of
+// Heap2 were renumbered in PostgreSQL 14 and those of Database in PostgreSQL 15.
+func operationNameFor(rmid, info uint8, magic uint16) string {
 	switch rmid {
 	case RM_HEAP_ID:
 		switch info & 0x70 {
@@ -468,6 +474,16 @@ func operationName(rmid, info uint8) string {
 			return "INPLACE"
 		}
 	case RM_HEAP2_ID:
+		if magic < WAL_MAGIC_14 { // PostgreSQL 12, 13: 0x10 CLEAN, 0x20 FREEZE_PAGE, 0x30 CLEANUP_INFO
+			switch info & 0x70 {
+			case 0x10:
+				return "CLEAN"
+			case 0x20:
+				return "FREEZE_PAGE"
+			case 0x30:
+				return "CLEANUP_INFO"
+			}
+		}
 		switch info & 0x70 {
 		case 0x00:
 			return "REWRITE"
@@ -536,7 +552,18 @@ func operationName(rmid, info uint8) string {
 			return "TRUNCATE"
 		}
 	case RM_DBASE_ID:
-		switch info & 0x70 {
+		if magic >= WAL_MAGIC_15 { // PostgreSQL 15, 16: CREATE_FILE_COPY, CREATE_WAL_LOG, DROP
+			switch info & 0xF0 {
+			case 0x00:
+				return "CREATE_FILE_COPY"
+			case 0x10:
+				return "CREATE_WAL_LOG"
+			case 0x20:
+				return "DROP"
+			}
+			break
+		}
+		switch info & 0xF0 {
 		case 0x00:
 			return "CREATE"
 		case 0x10:
